@@ -331,6 +331,24 @@ pub fn run(run: &mut Run) {
                 }
             }
         }
+        // integer literals at every power-of-two boundary, decimal and hexadecimal, signed and
+        // unsigned spellings, alone and embedded
+        for k in [7u32, 8, 15, 16, 31, 32, 53, 62, 63, 64, 65, 126, 127] {
+            for d in [-1i32, 0, 1] {
+                let v: u128 = if d < 0 { (1u128 << k) - 1 } else { (1u128 << k) + d as u128 };
+                for body in [format!("{}", v), format!("0x{:x}", v), format!("0X{:X}", v), format!("0x00{:x}", v), format!("0{}", v)] {
+                    for sign in ["", "-", "- ", "--"] {
+                        for suf in ["", "u", "U"] {
+                            for (pre, post) in [("", ""), ("[", "]"), ("1 + ", ""), ("(", ").x"), ("f(", ", 1)")] {
+                                if run.take() {
+                                    judge(run, "literals", &format!("{}{}{}{}{}", pre, sign, body, suf, post));
+                                }
+                            }
+                        }
+                    }
+                }
+            }
+        }
         for e in 0..=400u32 {
             for f in [format!("1e{}", e), format!("1e-{}", e), format!("9.9e{}", e), format!("-1.0E+{}", e)] {
                 if run.take() {
